@@ -9,7 +9,7 @@
    comparison of the RFC functions (instantiated with Gallina SHA-2/HMAC/HKDF) with the
    library's outputs.  Statements only; each is closed by [exact lemma]. *)
 From Coq Require Import NArith List.
-From MlsV Require Import Res Codec Hkdf KeyScheduleRFC KeyScheduleCode TreeMathGen TreeMathProofs KeyScheduleProofs PskIdeal ResumeGen ResumeGenProofs.
+From MlsV Require Import Res Codec Hkdf KeyScheduleRFC KeyScheduleCode TreeMathGen TreeMathProofs KeyScheduleProofs PskIdeal ResumeGen ResumeGenProofs CodecTypes KsCases TranscriptGen TranscriptGenProofs.
 Import ListNotations.
 Local Open Scope N_scope.
 
@@ -70,6 +70,27 @@ Theorem C13_translated_resolver_keeps_the_order : forall h l vs,
   gen_resolve_all h (model_repo h) l = Some vs -> Forall2 (fun p v => gen_resolve_one h (model_repo h) p = Some v) l vs.
 Proof. exact translated_resolver_in_order. Qed.
 
+(* the inputs of the two transcript hashes, TRANSLATED from group/transcript_hash.rs on every run
+   (fields of the input structs, what each is initialised from, order of concatenation), are the
+   RFC 9420 8.2 inputs the byte-for-byte comparison uses *)
+Theorem C13_translated_confirmed_transcript_input : forall H interim_prev wf fc sig,
+  confirmed_transcript_hash H interim_prev (wf ++ fc ++ sig) =
+  h_fun H (gen_confirmed_hash_input interim_prev (gen_confirmed_input wf fc sig)).
+Proof. exact translated_confirmed_hash. Qed.
+
+Theorem C13_translated_interim_transcript_input : forall H confirmed tag,
+  interim_transcript_hash H confirmed tag =
+  h_fun H (gen_interim_hash_input confirmed (gen_interim_input (vbytes tag))).
+Proof. exact translated_interim_hash. Qed.
+
+Theorem C13_compared_transcript_input_is_the_translated_one : forall ac inp tag,
+  cth_input ac = Some (inp, tag) ->
+  exists wf fc auth sig rest a b c,
+    decode T_AuthenticatedContent None ac = DOk (VCons wf (VCons fc auth), rest) /\
+    encode T_WireFormat wf = Some a /\ encode T_FramedContent fc = Some b /\ encode T_MessageSignature sig = Some c /\
+    inp = gen_confirmed_input a b c.
+Proof. exact cth_input_is_translated. Qed.
+
 Print Assumptions C13_label_encoding.
 Print Assumptions C13_key_schedule.
 Print Assumptions C13_welcome_secret.
@@ -79,3 +100,6 @@ Print Assumptions C13_secret_tree_new.
 Print Assumptions C13_secret_tree_leaf.
 Print Assumptions C13_ratchet_key.
 Print Assumptions C13_translated_resolver_keeps_the_order.
+Print Assumptions C13_translated_confirmed_transcript_input.
+Print Assumptions C13_translated_interim_transcript_input.
+Print Assumptions C13_compared_transcript_input_is_the_translated_one.
